@@ -1,5 +1,6 @@
 // @static_init cxxKinetics.cxx KineticsComp.cxx NameDouble.cxx Solution.cxx Utils.cxx
 // @id C12.cvode_time_bookkeeping
+// @also C02
 // @engine B
 // @entry vfh_C12_cvode_restart
 // @shared_state_watch
@@ -8,7 +9,7 @@
 // @reach cvode.done
 // @funcs Phreeqc::run_reactions; Phreeqc::free_cvode; N_VNew; N_VScale
 // @bounds the real -cvode branch of run_reactions for one kinetic reactant over the time interval T in [1e-3,1e6] s; the integrator is an arbitrary environment: each CVode call either completes the interval it was asked for or gives up after an arbitrary good time g_k in [0, requested] (0..3 give-ups in a row, case split; -bad_step_max 10); the amount reacted it reports on completion is arbitrary in [-1,20] mol with initial amount m0 in [0,10]
-// @oracle time is neither lost nor integrated twice: the first call is asked for T, every restart for exactly what is left, T - (g_1 + ... + g_k), so the completed pieces add up to T whatever the sequence of give-ups; each give-up restarts from the last good state; afterwards simulation time has advanced by exactly T, the reactant amount is never negative and amount + moles transferred equals the initial amount
+// @oracle time is neither lost nor integrated twice: the first call is asked for T, every restart for exactly what is left, T - (g_1 + ... + g_k), so the completed pieces add up to T whatever the sequence of give-ups; each give-up restarts from the last good state; afterwards simulation time has advanced by exactly T, the reactant amount is never negative and amount + moles transferred equals the initial amount; the mineral assemblage and the solid-solution assemblage of the cell - each present or absent by case split - which the integrator's trial rate evaluations have overwritten, are both back at their state before the integration when the final equilibrium step starts (otherwise that step counts the transfers twice)
 // @stubs CVode, CVodeMalloc, CVDense, CVodeFree (environment, as above); Phreeqc::set_and_run_wrapper, saver, store_get_equi_reactants, calc_final_kinetic_reaction, status, sformatf, error_msg, warning_msg
 // @outside the integrator itself (cvode.cpp: 3500 lines of floating-point step control, not encodable); the rate functions; the "FAIL 2" re-entry after a completed integration
 #include "Phreeqc.h"
@@ -28,7 +29,24 @@ static int g_calls = 0, g_fail = 0, g_mallocs = 0, g_frees = 0;
 static double g_req[8], g_good[8], g_y_final, g_y_at_restart[8];
 static char g_mem[8];
 
-int Phreeqc::set_and_run_wrapper(int i, int use_mix, int use_kinetics, int nsaver, LDBLE step_fraction) { iterations = 1; return OK; }
+static int g_wrapper_calls = 0;
+static int g_final_pp_ok = -1, g_final_ss_ok = -1, g_has_pp = 0, g_has_ss = 0;
+int Phreeqc::set_and_run_wrapper(int i, int use_mix, int use_kinetics, int nsaver, LDBLE step_fraction)
+{
+	iterations = 1;
+	/* as the real routine does: the assemblages of cell i are the ones in use */
+	use.Set_pp_assemblage_ptr(Utilities::Rxn_find(Rxn_pp_assemblage_map, i));
+	use.Set_ss_assemblage_ptr(Utilities::Rxn_find(Rxn_ss_assemblage_map, i));
+	if (++g_wrapper_calls >= 2)
+	{
+		/* the final equilibrium step after the integration: what does it start from? */
+		cxxPPassemblage *pp = Utilities::Rxn_find(Rxn_pp_assemblage_map, i);
+		cxxSSassemblage *ss = Utilities::Rxn_find(Rxn_ss_assemblage_map, i);
+		g_final_pp_ok = (pp == NULL) ? 2 : (pp->Get_description() == "before integration");
+		g_final_ss_ok = (ss == NULL) ? 2 : (ss->Get_description() == "before integration");
+	}
+	return OK;
+}
 int Phreeqc::saver(void) { return OK; }
 int Phreeqc::store_get_equi_reactants(int k, int kin_end) { return OK; }
 int Phreeqc::calc_final_kinetic_reaction(cxxKinetics *kinetics_ptr) { return OK; }
@@ -47,9 +65,16 @@ void *CVodeMalloc(integertype N, RhsFn f, realtype t0, N_Vector y0, int lmm, int
 }
 int CVDense(void *cvode_mem, CVDenseJacFn djac, void *jac_data) { return SUCCESS; }
 void CVodeFree(void *cvode_mem) { g_frees++; }
+static void scribble(void)
+{
+	/* what the trial rate evaluations inside the integrator do to the cell's assemblages */
+	if (g_has_pp) g_p->Rxn_pp_assemblage_map[1].Set_description("trial");
+	if (g_has_ss) g_p->Rxn_ss_assemblage_map[1].Set_description("trial");
+}
 int CVode(void *cvode_mem, realtype tout, N_Vector yout, realtype *t, int itask)
 {
 	int k = g_calls++;
+	scribble();
 	if (k < 8) g_req[k] = tout;
 	if (k < g_fail)
 	{
@@ -94,6 +119,9 @@ extern "C" void vfh_C12_cvode_restart(void)
 	p->Rxn_kinetics_map[1] = kin;
 	cxxSolution s; s.Set_n_user(1); s.Set_n_user_end(1);
 	p->Rxn_solution_map[1] = s;
+	g_has_pp = (int) vf_int("cell_has_equilibrium_phases", 0, 1); g_has_ss = (int) vf_int("cell_has_solid_solutions", 0, 1);
+	if (g_has_pp) { cxxPPassemblage a; a.Set_n_user(1); a.Set_n_user_end(1); a.Set_description("before integration"); p->Rxn_pp_assemblage_map[1] = a; }
+	if (g_has_ss) { cxxSSassemblage a; a.Set_n_user(1); a.Set_n_user_end(1); a.Set_description("before integration"); p->Rxn_ss_assemblage_map[1] = a; }
 
 	int rc = p->run_reactions(1, T, NOMIX, 1.0);
 	vf_reach("cvode.done");
@@ -108,6 +136,8 @@ extern "C" void vfh_C12_cvode_restart(void)
 		vf_check("cvode.restart_from_last_good_state", g_y_at_restart[k + 1] == 0.25 * (k + 1));
 	}
 	vf_close("cvode.sim_time_advanced_by_T", p->rate_sim_time, t_start + T, 1e-12, 0);
+	vf_check("cvode.final_step_starts_from_saved_equilibrium_phases", g_final_pp_ok == (g_has_pp ? 1 : 2));
+	vf_check("cvode.final_step_starts_from_saved_solid_solutions", g_final_ss_ok == (g_has_ss ? 1 : 2));
 	vf_check("cvode.memory_released", g_mallocs == g_frees && p->kinetics_y == NULL && p->kinetics_cvode_mem == NULL);
 	cxxKineticsComp &kc = p->Rxn_kinetics_map[1].Get_kinetics_comps()[0];
 	vf_check("cvode.amount_nonnegative", kc.Get_m() >= 0.0);
